@@ -42,4 +42,21 @@ CHECKS = {
                   "quick": {"count": 400, "budget": 70, "workers": 8},
                   "thorough": {"count": 100000, "budget": 900, "workers": 16}}],
     },
+    "C05": {
+        "level": "exploration",
+        "rule": ("one evaluation = run A of a generated model to the end (images of the output directory per report step), then per chosen "
+                 "restart step n a new process B built from deck+RESTART(n)+SKIPREST and image[n] only: R1 dynamic state, R2 totals/UDQ/ACTIONX "
+                 "run records, R4 continuation (firings, totals at every later step), R3 schedule equivalence at n and every later step via a "
+                 "public-getter image. Every 4th run is crash-recover: A is executed again and killed at a plan-chosen syscall (aimed modulo the "
+                 "syscall count of the fault-free twin), B starts from the largest step that still loads from the crash image. distinct = hash of "
+                 "(mode, units, FMTOUT, UNIFOUT, write_double, ecl-compat, wells, steps, restart steps); non-trivial = at least one restart built"),
+        "assumptions": ["driver protocol = msim order (output of step r, then the actions of step r) plus Action::State::add_run; run B first evaluates the actions of step n on the restored state",
+                        "ACTIONX conditions in these runs use only quantities a restart restores (totals, UDQ) or, in a third of the runs, calendar vectors after a zero-length summary evaluation at the restart time",
+                        "tolerances derive from the storage type: doubles 1e-14 (formatted: printed precision), single precision values 2.5e-7 relative in deck units",
+                        "a STOP well needs >= 2 open connections to be stored as STOP (documented writer rule); generated wells have them",
+                        "known finding excluded from generation: WELTARG on a rate target that WCONPROD left defaulted"],
+        "bins": [{"name": "c05", "srcs": ["scen/c05_restart.cpp", "scen/srun/model.cpp", "scen/srun/driver.cpp", "scen/srun/schedcmp.cpp"],
+                  "quick": {"count": 320, "budget": 75, "workers": 8},
+                  "thorough": {"count": 100000, "budget": 1200, "workers": 16}}],
+    },
 }
